@@ -131,11 +131,24 @@ def nf_s32(v):
 def process(run, st_, specs):
     """specs -> failures; one objdump run for all candidates"""
     cands = []
-    for sp in specs:
+    for n_sp, sp in enumerate(specs):
         for att in (False, True):
-            line = asmgen.att(sp) if att else asmgen.intel(sp, style=0)
+            # every fourth spec writes its decimal numbers with a leading zero where no octal reading exists (0128, 09): the value denoted is the same
+            if "_lead0" not in sp:
+                sp["_lead0"] = int(n_sp % 4 == 3)      # kept in the spec so that a replay file reproduces the spelling
+            asmgen.LEAD0 = bool(sp["_lead0"])
+            try:
+                line = asmgen.att(sp) if att else asmgen.intel(sp, style=0)
+                plain = line
+                if asmgen.LEAD0 and line is not None:
+                    asmgen.LEAD0 = False
+                    plain = asmgen.att(sp) if att else asmgen.intel(sp, style=0)
+            finally:
+                asmgen.LEAD0 = False
             if line is None:
                 continue
+            if plain != line:
+                st_.klass("lines_with_leading_zero_decimal")
             st_.ev()
             r = call_asm(att, line)
             if r == "rejected":
